@@ -114,6 +114,18 @@ def chk_case(inp, c):
     feas = linprog(np.zeros(nv), A_ub=A_ub, b_ub=b_ub, bounds=bounds, method="highs")
     A2, b2, _, _ = build_lp(Mt, c0, lbv, ubv, B, neutral, 0.5 * d1, 0.5 * dr)
     feas_margin = linprog(np.zeros(nv), A_ub=A2, b_ub=b2, bounds=bounds, method="highs")
+    # 'two positive scales': when the targets cannot be scaled into the gamut at all (only vanishing scales are feasible,
+    # e.g. targets outside the span of a flat gamut) there is no meaningful answer; such cases are outside the property
+    if feas.status == 0:
+        smax = []
+        for kk in (2, 1):
+            cost = np.zeros(nv)
+            cost[-kk] = -1.0
+            rr = linprog(cost, A_ub=A_ub, b_ub=b_ub, bounds=bounds, method="highs")
+            smax.append(-rr.fun if rr.status == 0 else np.inf)
+        if min(smax) < 1e-2:
+            c.cell("unmet:only-vanishing-scales")
+            c.unmet("only vanishing scales are feasible (targets cannot be scaled into the gamut)")
     est = c.call(gen.make_estimator, dreye, inp, _where="ReceptorEstimator+register_system")
     kw = dict(solver=cp.CLARABEL) if inp["solver"] == "clarabel" else {}
     okc, out = c.try_call(est.fit_adaptive, B.copy(), neutral_point=(None if inp["neutral"] is None else inp["neutral"].copy()),
@@ -128,7 +140,7 @@ def chk_case(inp, c):
         if feas_margin.status != 0:
             c.inconclusive("polyhedron at the edge of feasibility")
         c.fail(f"fit_adaptive raised {type(exc).__name__}: {str(exc)[:140]} although a feasible (X, scales) exists",
-               mechanism=f"raise:{type(exc).__name__}:feasible", solver=inp["solver"])
+               mechanism=f"raise:{type(exc).__name__}:feasible" + ("" if Z.full_dim else ":flat-gamut"), solver=inp["solver"])
     if not c.require(isinstance(out, tuple) and len(out) == 3, "returns (X, scales, B_pred)", mechanism="return-type"):
         return
     X, sc, Bp = np.asarray(out[0], float), np.asarray(out[1], float), np.asarray(out[2], float)
@@ -138,10 +150,16 @@ def chk_case(inp, c):
         return
     S = B.sum(axis=1)
     tol = 1e-6 * (1 + float(np.max(np.abs(S))))
-    c.require(np.all(sc > 0), "both scales are positive", mechanism="scales-nonpositive", scales=sc)
+    sts = [f.get("status") for k, f in c.events if k == "solve.status" and f.get("where") == "lsq_linear_adaptive"]
+    status = sts[-1] if sts else None
+    c.cell("status=" + str(status))
+
+    def mech(base):
+        return base if status in (None, "optimal") else f"{base}@{status}"
+    c.require(np.all(sc > 0), "both scales are positive", mechanism=mech("scales-nonpositive"), scales=sc)
     rngx = ubv - lbv
     viol = np.maximum(lbv - X, X - ubv)
-    c.require(np.all(viol <= 1e-5 * rngx), "intensities within the bounds", mechanism="bounds", worst=float(np.max(viol)))
+    c.require(np.all(viol <= 1e-5 * rngx), "intensities within the bounds", mechanism=mech("bounds"), worst=float(np.max(viol)))
     pred = X @ Mt.T + c0
     c.require(np.all(np.abs(Bp - pred) <= 1e-10 * (np.abs(X) @ np.abs(Mt).T + np.abs(c0)) + 1e-12),
               "predicted capture is the model's capture of the returned intensities", mechanism="prediction")
@@ -149,11 +167,11 @@ def chk_case(inp, c):
     e1 = np.abs(pred.sum(axis=1) - sc[0] * S)
     c.margin("total-capture constraint / (delta+tol)", float(np.max(e1)), d1 + tol)
     c.require(np.all(e1 <= d1 + tol), "fitted total capture equals the target's total times the first scale (within delta_norm1)",
-              mechanism="total-not-scaled", worst=float(np.max(e1)), delta=d1, scales=sc)
+              mechanism=mech("total-not-scaled"), worst=float(np.max(e1)), delta=d1, scales=sc)
     e2 = np.abs((pred - sc[0] * nu) - sc[1] * (B - nu))
     c.margin("radial constraint / (delta+tol)", float(np.max(e2)), dr + tol)
     c.require(np.all(e2 <= dr + tol), "fitted offset from the neutral direction equals the target's offset times the second scale",
-              mechanism="offset-not-scaled", worst=float(np.max(e2)), delta=dr, scales=sc)
+              mechanism=mech("offset-not-scaled"), worst=float(np.max(e2)), delta=dr, scales=sc)
     if feas.status != 0:
         c.inconclusive("oracle LP reports no feasible point although a result was returned", abort=False)
     elif obj == "max":
@@ -167,7 +185,7 @@ def chk_case(inp, c):
             got = float(w @ sc)
             c.margin("max objective shortfall / tol", opt - got, 1e-4 * (1 + abs(opt)))
             c.require(got >= opt - 1e-4 * (1 + abs(opt)), "'max': no feasible pair of scales has a larger weighted sum",
-                      mechanism="max-suboptimal", got=got, lp_opt=opt, scales=sc, lp_scales=r.x[-2:])
+                      mechanism=mech("max-suboptimal"), got=got, lp_opt=opt, scales=sc, lp_scales=r.x[-2:])
     else:
         g = 2 * w ** 2 * (sc - 1)
         cost = np.zeros(nv)
@@ -180,10 +198,10 @@ def chk_case(inp, c):
             tolv = 1e-4 * (1 + abs(float(g @ sc))) + 1e-7
             c.margin("unity variational gap / tol", gap, tolv)
             c.require(gap <= tolv, "'unity': the scales are the feasible pair closest to (1, 1) (weighted)",
-                      mechanism="unity-suboptimal", gap=gap, scales=sc, lp_scales=r.x[-2:])
+                      mechanism=mech("unity-suboptimal"), gap=gap, scales=sc, lp_scales=r.x[-2:])
         if all_in:
             c.require(np.all(np.abs(sc - 1) <= 1e-3), "'unity': scales are (1, 1) when all targets are in gamut",
-                      mechanism="unity-not-one-in-gamut", scales=sc)
+                      mechanism=mech("unity-not-one-in-gamut"), scales=sc)
     c.nontrivial((not all_in) or N >= 2)
     c.note("scales", sc)
     c.note("setup", {"N": N, "objective": obj, "scale_w": inp["scale_w"], "all_inside": all_in})
